@@ -7,6 +7,7 @@ use serde_json::Value;
 mod address;
 mod c10;
 mod c12;
+mod c13;
 mod c16;
 mod decode;
 mod packet_window;
@@ -53,6 +54,9 @@ fn dispatch(entry: &str, spec: &Value) -> Result<Option<String>, String> {
         "increasing_nonce" => c12::increasing_nonce(spec),
         "counting_nonce" => c12::counting_nonce(spec),
         "packet_id_wrap" => c12::packet_id_wrap(spec),
+        "socks5_handshake" => c13::socks5_handshake(spec),
+        "socks5_replies" => c13::socks5_replies(spec),
+        "recognize_http" => c13::http(spec),
         "mode_predicate" => c16::mode_predicate(spec),
         "kind_predicate" => c16::kind_predicate(spec),
         "dispatch" => c16::dispatch(spec),
